@@ -186,18 +186,33 @@ fn rr_sequential(n: usize, max_calls: usize) {
     // every prefix is checked inside the loop, so a fixed number of calls covers all shorter runs
     let calls = max_calls;
     let mut k = 0;
+    let mut dispatched = 0u32;
     let mut wrapped = false;
+    let now_s = unsafe { NOW.0 };
     while k < calls {
         let req = any_u32();
+        // deadlines on both sides of the (stubbed) clock: already expired and still live
         let d = any_u16() as i64;
         let mut f = std::pin::pin!(rr.call(ctx(d), req));
-        let who = ready_ok(poll_once(f.as_mut()));
-        assert!((who as usize) < n);
-        assert!(unsafe { LAST_REQ[who as usize] } == req);
-        assert!(unsafe { LAST_DL[who as usize] } == d);
-        assert!(total(n) == k as u32 + 1);
-        assert!(balanced(n));
-        if k >= n && (n == 1 || unsafe { LAST_REQ[0] } != unsafe { LAST_REQ[n - 1] }) { wrapped = true; }
+        let r = poll_once(f.as_mut());
+        let who = match &r { Poll::Ready(Ok(v)) => *v as i64, Poll::Ready(Err(_)) => -2, Poll::Pending => -1 };
+        std::mem::forget(r);
+        assert!(who != -1);
+        if who == -2 {
+            // the property does not forbid a stub to refuse a call whose deadline has ALREADY passed;
+            // but then no backend is bothered and the rotation must not move (the `balanced`
+            // assertion on the following calls sees a cursor that advanced without a dispatch)
+            assert!(d <= now_s, "a call with time left was refused by the load balancer");
+            assert!(total(n) == dispatched, "a refused call reached a backend");
+        } else {
+            assert!((who as usize) < n);
+            assert!(unsafe { LAST_REQ[who as usize] } == req);
+            assert!(unsafe { LAST_DL[who as usize] } == d);
+            dispatched += 1;
+            assert!(total(n) == dispatched);
+            if dispatched as usize > n && (n == 1 || unsafe { LAST_REQ[0] } != unsafe { LAST_REQ[n - 1] }) { wrapped = true; }
+        }
+        assert!(balanced(n), "round robin: per-backend dispatch counts differ by more than one");
         k += 1;
     }
     witness!(wrapped, "cursor wrapped around with distinct requests");
@@ -212,10 +227,11 @@ fn rr_concurrent(n: usize) {
     unsafe { YIELD_FIRST = true; }
     let rr = RoundRobin::new(backends(n));
     let rr2 = rr.clone();
-    let mut f0 = Box::pin(rr.call(ctx(1), 10));
-    let mut f1 = Box::pin(rr2.call(ctx(2), 11));
-    let mut f2 = Box::pin(rr.call(ctx(3), 12));
-    let mut f3 = Box::pin(rr2.call(ctx(4), 13));
+    // deadlines are in the future of the stubbed clock (1000 s): live calls
+    let mut f0 = Box::pin(rr.call(ctx(2001), 10));
+    let mut f1 = Box::pin(rr2.call(ctx(2002), 11));
+    let mut f2 = Box::pin(rr.call(ctx(2003), 12));
+    let mut f3 = Box::pin(rr2.call(ctx(2004), 13));
     let mut done = [false; 4];
     let mut started = [false; 4];
     let mut ndone = 0;
